@@ -47,6 +47,8 @@ def lhenum_job(shard, nshards, exe, jobs):
 def pick_universe(rng, buckets, allkeys):
     r = rng.random()
     n = rng.choice([3, 5, 8, 12, 20, 40])
+    if rng.random() < 0.04:
+        n = rng.choice([120, 400, 1200])  # many resizes, long tombstone runs
     if r < 0.45:
         # keys that collide modulo 64 (hence modulo 16 and 32 too): one or two buckets
         bs = [b for b in buckets.values() if len(b) >= 4]
@@ -96,11 +98,13 @@ def churn_shard(shard, nshards, seed, tier, exe, nhist):
         for i in range(nhist // nshards // 2):
             uni = pick_universe(rng, buckets, cands)
             nops = rng.choice([30, 100, 300, 1000 if tier == "quick" else 5000])
+            if len(uni) > 100:
+                nops = len(uni) * rng.choice([3, 6])
             cmds = ["HASHFN %d" % hashfn, "NEW 0 1 obj"]
             plan = []
             model = {}
             uid = 10
-            every = 1 if nops <= 100 else 7
+            every = 1 if nops <= 100 else 7 if nops <= 1000 else 97
             for j in range(nops):
                 k = rng.choice(uni)
                 r = rng.random()
